@@ -477,6 +477,16 @@ func (p *Parent) Conclude(merged *Result) int {
 		return nil
 	}
 	replayDir := filepath.Join(p.VerifDir, "replays", id)
+	if ed := os.Getenv("VERIF_EVIDENCE_DIR"); ed != "" {
+		// self-test runs against a scratch copy keep their replays with their evidence
+		replayDir = filepath.Join(ed, "replays", id)
+	}
+	// replays of an earlier run with the same seed and tier are superseded
+	if old, _ := filepath.Glob(filepath.Join(replayDir, fmt.Sprintf("%d-%s-*.json", p.Seed, p.Tier))); len(old) > 0 {
+		for _, f := range old {
+			os.Remove(f)
+		}
+	}
 	printedKnown := map[string]bool{}
 	newViol := 0
 	knownViol := 0
